@@ -56,6 +56,13 @@ def main():
             rc_all |= p.returncode
     finally:
         shutil.rmtree(d, ignore_errors=True)
+        # the checks regenerated Gen_leaf.v / StrassenGen.v / GenSites.v / GenGlobals.v from the patched copy:
+        # regenerate them from /repo again so that /verif/coq describes the real tree
+        env = dict(os.environ)
+        env.pop("VERIF_REPO", None)
+        subprocess.run([sys.executable, "-c", "import sys; sys.path.insert(0, %r); import vlib\n"
+                        "for k in ('T1', 'T2', 'T3sites', 'T3globals'): vlib.regen(k)" % os.path.join(V, "tools")],
+                       cwd=V, env=env, capture_output=True, text=True)
     return 0
 
 
